@@ -898,10 +898,15 @@ def run(ck: Check):
         for mode in ["one", "max", "rand", "rand"][: ck.n(3, 4)]:
             v = gen(want["tree"], rng, mode)
             reply_cases.append({"req": s["name"], "resp": want["name"], "v": v, "flex": flex, "corr": 4242})
+            if flex:
+                # the same reply with tagged fields in the response header (unknown to the client: skipped)
+                for tags in ([[0, "78"]], [[1, "aabb"], [5, ""]], [[300, "00" * 130]]):
+                    reply_cases.append({"req": s["name"], "resp": want["name"], "v": v, "flex": flex, "corr": 4242,
+                                        "hdr_tags": tags})
     rep = run_impl("c11_impl.py", {"reply": reply_cases}, env=IMPL_ENV, timeout=600)["reply"]
     bad_reply = {}
     for c, r in zip(reply_cases, rep):
-        ck.count(key=("reply", c["req"], vhash(c["v"])), nontrivial=True)
+        ck.count(key=("reply", c["req"], vhash(c["v"]), json.dumps(c.get("hdr_tags"))), nontrivial=True)
         bad = None
         if "gen_exc" in r:
             bad = f"could not encode a {c['resp']}: {r['gen_exc']}"
